@@ -511,8 +511,13 @@ def dfa_symmetric_difference(D1: DFA, D2: DFA) -> DFA:
     return dfa_product(D1, D2, 'symmetric_difference')
 
 
+def fresh_epsilon(Sigma: Set[Symbol]) -> Symbol:
+    """Returns a symbol that is not in Sigma, to be used as epsilon; 'ε' if possible"""
+    return next(Symbol(c) for c in itertools.chain('ε_', map(chr, itertools.count(0x3b1))) if c not in Sigma)
+
+
 def dfa_reverse(D: DFA) -> NFA:
-    epsilon = Symbol('ε')
+    epsilon = fresh_epsilon(D.Sigma)
 
     q0 = fresh_state(D.Q, 'q')
     Q = D.Q.copy() | {q0}
@@ -527,7 +532,7 @@ def dfa_reverse(D: DFA) -> NFA:
 
 
 def dfa_no_prefix(D: DFA) -> NFA:
-    epsilon = Symbol('ε')
+    epsilon = fresh_epsilon(D.Sigma)
 
     Q = D.Q.copy()
     Sigma = D.Sigma.copy()
